@@ -434,7 +434,15 @@ fn check_counts(input: &(u8, u16), case: &mut Case) -> Result<(), Fail> {
     for k in 0..4 {
         ensure!(peek[k] == Ok(if k == section as usize { count } else { 0 }), "c08:peek-count", "peek count #{} = {:?}", k, peek[k]);
     }
-    let p = parse(&m)?.map_err(|e| Fail::new("c08:counts-rejected", format!("{} entries in section {}: {:?}", count, section, e)))?;
+    let p = match parse(&m)? {
+        Ok(p) => p,
+        // beyond 65535 octets there is no DNS message: a refusal makes no claim
+        Err(_) if m.len() > 65535 => {
+            case.class("longer-than-a-dns-message-and-refused:no-claim");
+            return Ok(());
+        }
+        Err(e) => return Err(Fail::new("c08:counts-rejected", format!("{} entries in section {}: {:?}", count, section, e))),
+    };
     let got = [p.questions.len(), p.answers.len(), p.name_servers.len(), p.additional_records.len()];
     for k in 0..4 {
         ensure!(got[k] == if k == section as usize { count as usize } else { 0 }, "c08:parse-counts", "the header announces {} entries in section {} and they are present, the parsed packet holds {:?}", count, section, got);
@@ -519,7 +527,8 @@ fn check_mixed(input: &(u8, u8, u8, u8, u8), case: &mut Case) -> Result<(), Fail
     let p = match parsed {
         Ok(p) => p,
         Err(e) => {
-            ensure!(overstated, "c08:counts-rejected", "counts {:?} with all entries present: {:?}", header, e);
+            // (a message with two OPT records may be refused as a whole, RFC 6891 6.1.1: no claim then)
+            ensure!(overstated || opts.len() >= 2, "c08:counts-rejected", "counts {:?} with all entries present: {:?}", header, e);
             return Ok(());
         }
     };
